@@ -2,7 +2,7 @@
 
 PROPS = {
     "C24": {
-        "harness": None,
+        "harness": "vh-ls",
         "runner": "checklib/run/ls_stdio.py",
         "gen": ["proto_methods"],
         "pre": ["build_ls"],
@@ -30,6 +30,47 @@ PROPS = {
                         "the client keeps the connection open until it has its responses"],
         "technique": "invariant proof (accounting of owed responses) over an executable state machine + T-src table bridge + differential run against the real binary",
     },
+    "C25": {
+        "harness": "vh-ls",
+        "gen": ["proto_pos_sites"],
+        "lean_modules": ["EmmyVerif.Props.C25"],
+        "timeout": 900,
+        "timeout_thorough": 3600,
+        "level_text": "Partial. Kernel-checked theorems about the Pos model of the prelude every position-taking handler shares "
+                      "(get_offset -> end-of-document guard -> token_at_offset; to_rowan_range -> TextRange::new): for every text and every "
+                      "(line, character) or range a client can send, rowan's preconditions hold (offset <= root end, start <= end <= |text|), "
+                      "with or without the guard when the tree is lossless. The list of client-derived token_at_offset sites is re-extracted "
+                      "from the handlers each run and all must be guarded (decide). The prelude is compared with LuaDocument on generated "
+                      "documents; the in-process oracle sends all 22 position/range-taking requests at every token boundary, mid-token, past "
+                      "end of line/document, u32::MAX and inverted/empty ranges on valid and invalid documents through the real dispatch path "
+                      "and accepts only results (a handler panic surfaces as InternalError).",
+        "level_note": "Not modelled (partial): what a handler does after it holds the token; that part is covered only by the search. "
+                      "Trusted: Lean kernel, harness, extractor heuristics (regex over the handler sources), rowan's documented preconditions.",
+        "trusted_base": ["C22 theorems about the Text model (imported)", "T-src extraction by regex over crates/emmylua_ls/src/handlers",
+                         "in-process correspondence run (LuaDocument vs Pos model)"],
+        "assumptions": ["texts shorter than 2^32 bytes", "rowan panics only when its documented preconditions are violated"],
+        "technique": "theorems over the Text/Pos model + T-src site list bridged by decide + differential run + in-process crash oracle",
+    },
+    "C26": {
+        "harness": "vh-ls",
+        "gen": ["proto_legend"],
+        "timeout": 900,
+        "timeout_thorough": 3600,
+        "level_text": "Partial. Kernel-checked theorems about the LspShape model of SemanticBuilder::build (drop empty, stable sort, collapse equal "
+                      "starts, clip overlaps, delta-encode) and the client decoder: decode(build es) = normalize es for every entry list, the decoded "
+                      "tokens are always ordered and non-overlapping, each is a (possibly shortened) pushed entry, nothing is lost iff the entries were "
+                      "already disjoint; token type/modifier indices lie inside the advertised legend (tables re-extracted each run, decide); a nested "
+                      "selection chain is strictly growing after merging equal steps. The builder's recorded input is re-encoded by the model and "
+                      "compared with the server's data each run; an independent oracle validates every structure-returning request on generated "
+                      "documents (ranges inside the document, token order/overlap/legend, symbol nesting, fold start<=end, selection chains, "
+                      "completion edit around the cursor, disjoint edits).",
+        "level_note": "Not modelled (partial): which nodes the producers pick (push_data, symbol/fold builders, rename); covered only by the search. "
+                      "Open finding: whole-document ranges end at (line_count, 0).",
+        "trusted_base": ["hook: SemanticBuilder::build records its flattened entries (feature verif)", "T-src extraction of the legend tables",
+                         "in-process correspondence run"],
+        "assumptions": ["line/column numbers fit u32 (no wrap in the delta subtraction; entries are sorted so it cannot underflow)"],
+        "technique": "theorems over an executable model (sortedness/clip invariants, decode∘encode) + T-src legend bridge + differential run + structural oracle",
+    },
 }
 
-HOOK_COMMITS = []
+HOOK_COMMITS = ["76428a6 verif hook: H3 emmylua_ls verif_handlers re-exports (ServerContext, request/notification dispatch, server_capabilities) and SemanticBuilder entry recorder (feature verif)"]
